@@ -103,6 +103,37 @@ func (rn *runner) genStep() {
 	if d.Cells[v].B != nil && r.Chance(1, 5) {
 		rn.allocate(v, rn.fees())
 	}
+	// bias towards "somebody joins while the saver holds nothing of a denom that already has a
+	// multiplier": a sole holder claims (with 10^k shares that drains the saver exactly), and a
+	// non-holder delegates to a validator in that state
+	for vv := range d.Cells {
+		c := d.Cells[vv]
+		holders, last := 0, -1
+		for i := 0; i < 4; i++ {
+			if c.Sh[i].Sign() > 0 {
+				holders++
+				last = i
+			}
+		}
+		drained := false
+		for dn := range denomNames {
+			if c.M[dn].C.Sign() > 0 && c.S[dn].Sign() == 0 {
+				drained = true
+			}
+		}
+		if drained && r.Chance(1, 3) {
+			j := r.Intn(4)
+			if c.Sh[j].Sign() == 0 {
+				rn.st.Count("join-at-drained-saver")
+				rn.do(op{Kind: kDelegate, U: j, V: vv, Amt: bi(1_000_000)}, "gen:join-drained")
+				return
+			}
+		}
+		if holders == 1 && !drained && c.S[0].Sign() > 0 && r.Chance(1, 4) {
+			rn.do(op{Kind: kClaim, U: last, V: vv}, "gen:sole-claim")
+			return
+		}
+	}
 	switch x := r.Intn(100); {
 	case x < 28: // delegate
 		rn.do(op{Kind: kDelegate, U: u, V: v, Amt: rn.amount()}, "gen")
